@@ -119,7 +119,7 @@ def project(r):
 MARK = re.compile(r'Wm\d+k')
 
 
-def run(tier, seed, build_, res):
+def _run_own(tier, seed, build_, res):
     rng = random.Random(seed)
     macs, envs = catalogue()
     res.rule = ('documents of 1-3 construct uses repeated 1-3 times between '
@@ -199,6 +199,12 @@ def run(tier, seed, build_, res):
             bad = 'no result %r' % (im[:2],)
         if bad:
             res.failures.append(('c04:%r' % (c.key(),), c.json(), bad))
+
+
+def run(tier, seed, build_, res):
+    _run_own(tier, seed, build_, res)
+    # snippets of /repo's own tests and their mutations (harness/seeds.py)
+    universe.run_seeds(random.Random(seed + 7), res, project, tier, share=0.6)
 
 
 def replay(payload, build_, res):
